@@ -447,6 +447,15 @@ def _pipe_rows(ctx):
                     outer.append(s_.bb)
             if not outer or not _always(dp, outer):
                 okk = False
+            # inside a `for handle in handles` loop every turn joins its handle (not only the ones that happen to have finished)
+            own_joins = set(bb for f, bb in joins if f is dp)
+            for bb, t in dp.calls():
+                nm = t['func'].get('fn') or ''
+                if nm.endswith('Iterator::next') and not dp.blocks[bb]['cleanup'] and t['args'] and t['args'][0]['k'] != 'const' and 'JoinHandle' in clean_ty(t['args'][0]['pl']['ty']) and own_joins:
+                    e_ = result_edges(dp, bb)
+                    some_ = edge_for(e_, OPTION, 'Some') if e_ else None
+                    if some_ is not None and not dp.must_pass(some_, set(dp.exits()) | {bb}, own_joins):
+                        okk = False
             if okk:
                 out.append(ok(R, key, 'the handles taken out of the table are joined on every path', fn=dp.name))
             else:
